@@ -65,10 +65,8 @@ NP_ALLCLOSE_DEFAULT = {"rtol": 1e-5, "atol": 1e-8}
 
 
 def exc_name(r):
-    exc = r.node.exc
-    if isinstance(exc, ast.Call):
-        exc = exc.func
-    return getattr(exc, "id", getattr(exc, "attr", None))
+    from xfabsa.symeval import raised_name
+    return raised_name(r)
 
 
 def flat(v):
